@@ -1801,6 +1801,9 @@ func (d *delegation) saveRewardData(epoch uint32, rewardsData *RewardComputation
 func (d *delegation) computeAndUpdateRewards(callerAddress []byte, delegator *DelegatorData) error {
 	if len(delegator.ActiveFund) == 0 {
 		// nothing to calculate as no active funds - all were computed before
+		// the epochs that pass while there is no active fund must not be rewarded later on,
+		// when a new active fund is created, so the checkpoint has to move with the epoch
+		delegator.RewardsCheckpoint = d.eei.BlockChainHook().CurrentEpoch() + 1
 		return nil
 	}
 
